@@ -283,7 +283,7 @@ func resolveView(root filesystem.Filespace, chain []string) (fs filesystem.Files
 }
 
 func execFsOp(root filesystem.Filespace, op FsOp) FsOut {
-	return withTimeout(5*time.Second, func() FsOut {
+	return withTimeout(20*time.Second, func() FsOut {
 		fs, ok := resolveView(root, op.View)
 		if !ok {
 			return FsOut{Kind: "err", Msg: "view creation failed"}
